@@ -198,7 +198,7 @@ def packPages (es : List Entry) : Gen Layout := do
   return pages.toList
 
 /-- all rows of all values plus dead / aborted versions, in a generated physical order -/
-def genLayout (vals : List ToastValue) : Gen Layout := do
+def genLayoutWith {α} (pack : List Entry → Gen α) (vals : List ToastValue) : Gen α := do
   let mut es : Array Entry := #[]
   for v in vals do
     for r in chunkRows v do
@@ -217,14 +217,94 @@ def genLayout (vals : List ToastValue) : Gen Layout := do
     | 0 => pure es.toList
     | 1 => pure es.toList.reverse
     | _ => Gen.shuffle es.toList
-  packPages order
+  pack order
+
+/-! ### line pointers that are not LP_NORMAL (`Spec.Toast.Hole`) -/
+
+/-- a dead item still stored on the page: a stale version of entry `e`'s chunk (same id and sequence number, other bytes) -/
+def genDeadStored (e : Entry) : Gen Hole := do
+  let junk ← genBytes (← Gen.oneOf [1, 2, 7, min e.row.data.length 40])
+  let (dmask, zeroXmin) ← Gen.oneOf deadStates
+  let mask ← if ← Gen.bool then pure dmask else Gen.oneOf liveMasks
+  return Hole.deadStored { row := { e.row with data := if junk.isEmpty then [0] else junk, short := false },
+                           infomask := mask, xmin := if zeroXmin then 0 else 650, xmax := 0 }
+
+/-- a group of 1–3 consecutive holes in front of entry `e`; LP_UNUSED most often -/
+def genHoleGroup (e : Entry) : Gen (List Hole) := do
+  let k ← Gen.oneOf [1, 1, 1, 2, 2, 3]
+  let mut out : Array Hole := #[]
+  for _ in [0:k] do
+    let h ← match ← Gen.below 8 with
+      | 0 | 1 | 2 | 3 => pure Hole.unused
+      | 4 | 5 => pure Hole.dead
+      | 6 => genDeadStored e
+      | _ => pure (Hole.redirect (← Gen.range 1 40))
+    out := out.push h
+  return out.toList
+
+def groupCost (g : List Hole) : Nat := 4 * g.length + (g.flatMap (·.storage)).length
+
+/-- `packPages` with holes.  Every page draws a placement mode, boundary-heavy: 0 none, 1 in front of the first pointer
+only, 2 behind the last only, 3 both ends, 4 right behind the first pointer (slot 1), 5 everywhere (1 gap in 3),
+6 in front of EVERY pointer and behind the last. -/
+def packPagesH (es : List Entry) : Gen (Layout × List Holes) := do
+  let mut pages : Array (List Entry) := #[]
+  let mut holes : Array Holes := #[]
+  let mut cur : Array Entry := #[]
+  let mut curH : Array (List Hole) := #[]
+  let mut used := 24
+  let mut mode ← Gen.below 7
+  let last : Entry := es.getLastD default
+  for e in es do
+    let need := 4 + e.len
+    let early ← Gen.prob 1 40
+    -- room kept for a trailing group (at most 3 pointers + one stored dead item of ≤ 40 + 32 bytes)
+    if used + need + 90 > 8192 || (early && cur.size > 0) then
+      let g ← if mode == 2 || mode == 3 || mode == 6 || (mode == 5 && (← Gen.prob 1 3)) then genHoleGroup e else pure []
+      let g := if used + groupCost g ≤ 8192 then g else []
+      pages := pages.push cur.toList
+      holes := holes.push (curH.toList ++ [g])
+      cur := #[]; curH := #[]; used := 24
+      mode ← Gen.below 7
+    let want := match mode with
+      | 1 | 3 => cur.size == 0
+      | 4 => cur.size == 1
+      | 6 => true
+      | _ => false
+    let want ← if mode == 5 then Gen.prob 1 3 else pure want
+    let g ← if want then genHoleGroup e else pure []
+    let g := if used + need + groupCost g + 90 ≤ 8192 then g else []
+    cur := cur.push e; curH := curH.push g; used := used + need + groupCost g
+  if cur.size > 0 then
+    let g ← if mode == 2 || mode == 3 || mode == 6 || (mode == 5 && (← Gen.prob 1 3)) then genHoleGroup last else pure []
+    let g := if used + groupCost g ≤ 8192 then g else []
+    pages := pages.push cur.toList
+    holes := holes.push (curH.toList ++ [g])
+  return (pages.toList, holes.toList)
+
+def genLayout (vals : List ToastValue) : Gen Layout := genLayoutWith packPages vals
+
+/-- a layout with non-NORMAL line pointers before, between and behind the chunks' pointers -/
+def genLayoutH (vals : List ToastValue) : Gen (Layout × List Holes) := genLayoutWith packPagesH vals
 
 structure Rel where
   vals : List ToastValue
   lay : Layout
+  /-- non-NORMAL line pointers, one `Holes` per page of `lay` (missing = none) -/
+  holes : List Holes := []
 deriving Inhabited
 
-def genRel (size : Nat) : Gen Rel := do
+/-- the relation's heap file -/
+def Rel.file (r : Rel) : Bytes := encToastRelH r.lay r.holes
+
+def Rel.hasHoles (r : Rel) : Bool := r.holes.any fun hs => hs.any fun g => !g.isEmpty
+
+/-- an LP_UNUSED pointer with a NORMAL pointer somewhere behind it on the same page -/
+def Rel.midUnused (r : Rel) : Bool :=
+  (r.lay.zip r.holes).any fun (pg, hs) =>
+    (List.range pg.length).any fun i => (holesAt hs i).any fun h => h.flags == 0
+
+def genRelWith (layout : List ToastValue → Gen (Layout × List Holes)) (size : Nat) : Gen Rel := do
   let relid ← Gen.oneOf [16385, 2619, 4294967295, 1]
   let nv ← match ← Gen.below 8 with
     | 0 => pure 1
@@ -238,8 +318,14 @@ def genRel (size : Nat) : Gen Rel := do
     -- many values per relation: keep them small so that the whole relation stays moderate
     let sz := if nv > 5 then min size 1 else size
     vals := vals.push (← genValue (base + i) relid sz)
-  let lay ← genLayout vals.toList
-  return ⟨vals.toList, lay⟩
+  let (lay, holes) ← layout vals.toList
+  return { vals := vals.toList, lay, holes }
+
+/-- dense pointer arrays (freshly loaded relation) -/
+def genRel (size : Nat) : Gen Rel := genRelWith (fun vs => do return (← genLayout vs, [])) size
+
+/-- pointer arrays as deletes + VACUUM leave them: with LP_UNUSED / LP_DEAD / LP_REDIRECT entries -/
+def genRelH (size : Nat) : Gen Rel := genRelWith genLayoutH size
 
 /-- all permutations of a list -/
 def perms : List α → List (List α)
